@@ -283,6 +283,15 @@ func suiteC18(c *Ctx) []Suite {
 						var vars []varRef
 						collectVars(item, &vars)
 						key, val := "nokey", sintTok(0, 1)
+						if c.R.Intn(3) == 0 {
+							// a count under a name that names no ellipsis of this item: nothing changes
+							key = []string{"...[9]", "...", "...[0]", "...[1]"}[c.R.Intn(4)]
+							for _, v := range func() []varRef { var vs []varRef; collectVars(item, &vs); return vs }() {
+								if v.name == key {
+									key = "...[17]"
+								}
+							}
+						}
 						if len(vars) > 0 && c.R.Intn(4) > 0 {
 							v := vars[c.R.Intn(len(vars))]
 							key, val = v.name, strTok(fmt.Sprintf("ren%d_%d", i, k))
@@ -620,6 +629,34 @@ func suiteC12(c *Ctx) []Suite {
 			return out
 		}},
 		{Name: "ctor/ellipsis-count-types", Gen: func(c *Ctx) []Case { return ellipsisCases(c, c.N(600), 2, 3) }},
+		{Name: "ctor/fill-in-items-are-stored-as-passed", Gen: func(c *Ctx) []Case {
+			// FillVariables is a constructor of lists too: an item passed as the value of a list
+			// variable is stored as it is, also when the same table has a value for a variable inside it
+			var out []Case
+			y := Slot{IsVar: true, Name: "y"}
+			inner := []*Node{
+				{Kind: "U", W: 1, Slots: []Slot{y}},
+				{Kind: "I", W: 2, Slots: []Slot{y, {I: 3}}},
+				{Kind: "L", Slots: []Slot{{Child: &Node{Kind: "U", W: 1, Slots: []Slot{y}}}}},
+				{Kind: "AV", Name: "y", Min: 0, Max: -1},
+				{Kind: "F", W: 8, Slots: []Slot{y}},
+			}
+			vals := []string{"i:0:5", "i:0:300", "u:8:7", "s:" + hxs("txt"), "f64:4609434218613702656"}
+			x := Slot{IsVar: true, Name: "x"}
+			tmpls := []*Node{
+				{Kind: "L", Slots: []Slot{x, {Child: &Node{Kind: "U", W: 1, Slots: []Slot{{U: 1}}}}}},
+				{Kind: "L", Slots: []Slot{{Child: &Node{Kind: "L", Slots: []Slot{x, {Child: &Node{Kind: "A", Str: []byte("ab")}}}}}}},
+				{Kind: "L", Slots: []Slot{{Child: &Node{Kind: "U", W: 1, Slots: []Slot{{U: 2}}}}, x, {IsVar: true, Name: "z"}}},
+			}
+			for _, in := range inner {
+				for _, v := range vals {
+					for _, tmpl := range tmpls {
+						out = append(out, Case{Op: "fillitem " + tmpl.Proto() + " | 2 " + hxs("x") + " t " + in.Proto() + " " + hxs("y") + " " + v, Decisive: true, Nontrivial: true, Tags: []string{"fill-in-item"}}.fields(itemKeys))
+					}
+				}
+			}
+			return out
+		}},
 		{Name: "ctor/message-setters", Gen: func(c *Ctx) []Case {
 			// the setters are constructors too: a wait bit on an even function, a session id
 			// outside 16 bits are refused exactly as NewDataMessage / NewHSMSDataMessage refuse them
